@@ -182,3 +182,9 @@ class ImmutableBaseModel(BaseModel):
             msg = f"{self.__class__.__name__} is immutable"
             raise AttributeError(msg)
         super().__setattr__(name, value)
+
+    def __delattr__(self, name: str) -> None:
+        if self._is_immutable:
+            msg = f"{self.__class__.__name__} is immutable"
+            raise AttributeError(msg)
+        super().__delattr__(name)
